@@ -1044,13 +1044,60 @@ no_repeat:
   }
 }
 
+/* another set of feature flags for the same target (0: the target has no feature subsets to speak of), chosen by the case number */
+static unsigned c17_other_flags (OrcTarget *t, long caseidx)
+{
+  unsigned d = orc_target_get_default_flags (t), k = (unsigned) ((caseidx * 2654435761u) >> 7);
+  if (!strcmp (t->name, "sse")) {
+    unsigned all = ORC_TARGET_SSE_SSE2 | ORC_TARGET_SSE_SSE3 | ORC_TARGET_SSE_SSSE3 | ORC_TARGET_SSE_SSE4_1 | ORC_TARGET_SSE_SSE4_2, f = ORC_TARGET_SSE_SSE2;
+    if (k & 1) f |= ORC_TARGET_SSE_SSE3;
+    if ((k & 6) == 6) f |= ORC_TARGET_SSE_SSSE3;
+    if ((k & 24) == 24) f |= ORC_TARGET_SSE_SSE4_1;
+    f = (d & ~all) | f; return f == d ? ((d & ~all) | ORC_TARGET_SSE_SSE2) : f;
+  }
+  if (!strcmp (t->name, "mmx")) {
+    unsigned all = ORC_TARGET_MMX_MMX | ORC_TARGET_MMX_MMXEXT | ORC_TARGET_MMX_SSSE3 | ORC_TARGET_MMX_SSE4_1 | ORC_TARGET_MMX_3DNOW | ORC_TARGET_MMX_3DNOWEXT, f = ORC_TARGET_MMX_MMX;
+    if (k & 1) f |= ORC_TARGET_MMX_MMXEXT;
+    if ((k & 6) == 6) f |= ORC_TARGET_MMX_SSSE3;
+    f = (d & ~all) | f; return f == d ? ((d & ~all) | ORC_TARGET_MMX_MMX) : f;
+  }
+  if (!strcmp (t->name, "avx")) return (d & ORC_TARGET_AVX_AVX2) ? (d & ~ORC_TARGET_AVX_AVX2) : 0;
+  return 0;
+}
+
+static uint64_t c17_hash_prog (OrcProgram *p, OrcCompileResult res)
+{
+  uint64_t h = 1469598103934665603ULL; int i; const char *a;
+  h = (h ^ (uint64_t) res) * 1099511628211ULL;
+  if (p->orccode && p->orccode->code && ORC_COMPILE_RESULT_IS_SUCCESSFUL (res)) for (i = 0; i < p->orccode->code_size; i++) h = (h ^ p->orccode->code[i]) * 1099511628211ULL;
+  a = orc_program_get_asm_code (p);
+  if (a) for (; *a; a++) h = (h ^ (unsigned char) *a) * 1099511628211ULL;
+  return h;
+}
+
+/* C17_FLAGHIST=1: the same program is first compiled for the same target under another feature-flag set, then under the default flags;
+ * C17_FLAGHIST=2: the other way round.  Both results are hashed: neither may depend on which came first. */
+static void c17_flag_compile (ProgSpec *ps, long caseidx, OrcTarget *t)
+{
+  unsigned f2 = c17_other_flags (t, caseidx); OrcProgram *p; OrcCompileResult res;
+  if (!f2) return;
+  p = gen_build (ps); res = orc_program_compile_full (p, t, f2);
+  vh_set_addf ("c17fhash", "%ld:%s/%#x:%016llx", caseidx, t->name, f2, (unsigned long long) c17_hash_prog (p, res));
+  vh_count ("c17.flag_history_compiles", 1);
+  orc_program_free (p);
+}
+
 /* emit hash of code+listing per (case,target) for cross-process comparison (debug levels, fresh process) */
 static void c17_hash_one (ProgSpec *ps, long caseidx)
 {
-  int ti;
+  int ti; const char *fh = getenv ("C17_FLAGHIST"); int fhm = fh ? atoi (fh) : 0;
   for (ti = 0; ti < n_all_targets; ti++) {
-    OrcTarget *t = all_targets[ti]; OrcProgram *p = gen_build (ps); uint64_t h = 1469598103934665603ULL; int i; const char *a;
-    OrcCompileResult res = orc_program_compile_full (p, t, orc_target_get_default_flags (t));
+    OrcTarget *t = all_targets[ti]; OrcProgram *p; uint64_t h = 1469598103934665603ULL; int i; const char *a;
+    OrcCompileResult res;
+    if (fhm == 1) c17_flag_compile (ps, caseidx, t);
+    p = gen_build (ps);
+    res = orc_program_compile_full (p, t, orc_target_get_default_flags (t));
+    if (fhm == 2) c17_flag_compile (ps, caseidx, t);
     h = (h ^ (uint64_t) res) * 1099511628211ULL;
     if (p->orccode && p->orccode->code && ORC_COMPILE_RESULT_IS_SUCCESSFUL (res)) for (i = 0; i < p->orccode->code_size; i++) h = (h ^ p->orccode->code[i]) * 1099511628211ULL;
     a = orc_program_get_asm_code (p);
